@@ -953,3 +953,53 @@ def exit_set_scope(ctx, rid: str) -> None:
         c.ob(rid, ok, f, "region-filter", f"narrowed to the states that are {w} or below it" if ok else
              f"the narrowing condition '{norm(cond) if cond is not None else conds}' is not 'descendant of {w} (or {w} itself)': active states inside the "
              f"target's region stay active after the transition (two active children in one region), or states of sibling regions are exited", nc)
+
+
+def eligible_bucket_rules(ctx, rid: str, which: str) -> None:
+    """Candidate collection (``_collect_eligible_transitions``): a transition becomes a candidate only
+      * when its own guard passes (``which='guard'``: a positive ``_passes(t)`` atom for the very transition appended), and
+      * when the event is its event: ``after`` transitions by ``t.event == event.type`` under ``isinstance(event, AfterEvent)``;
+        invoke handlers by ``event.src == inv.id`` and ``t.event == event.type`` under ``isinstance(event, DoneEvent)``;
+        ``onDone`` by ``on_done.event == event.type``; eventless ones only under the transient check.
+    Each is a conjunction of simple atoms on every append (a disjunction or a constant in their place lets a foreign event,
+    or a transition whose guard is false, through)."""
+    from sa.util import canon_atom
+    c, p = ctx.c, ctx.p
+    ce = p.method("BaseInterpreter", "_collect_eligible_transitions")
+    apps = [x for x in own_nodes(ce.node) if isinstance(x, ast.Call) and isinstance(x.func, ast.Attribute) and x.func.attr == "append"
+            and dotted(x.func.value) == "eligible" and x.args]
+    if not c.expect(rid, "appends to the candidate list", len(apps), 5, ce, "candidate collection no longer covers all five buckets (on, always, onDone, after, invoke)"):
+        return
+    n = 0
+    for x in apps:
+        item = norm(x.args[0])
+        raw = guards_at(ce, x)
+        atoms = [canon_atom(a, pol) for a, pol in raw if not isinstance(a, ast.BoolOp)]
+        consts = [a for a, pol in raw if isinstance(a, ast.Constant)]
+        loops = [l for l in enclosing_loops(ce, x) if isinstance(l, ast.For)]
+        src = " ".join(norm(l.iter) for l in loops) + " " + item
+        bucket = "after" if ".after" in src else ("invoke" if "on_done + " in src or ".invoke" in src else ("ondone" if item.endswith(".on_done") else
+                 ("always" if "on['']" in src.replace('"', "'") else "on")))
+        if which == "guard":
+            n += 1
+            ok = ("truthy", f"_passes({item})", "", True) in atoms
+            c.ob(rid, ok, ce, f"guard-passes:{bucket}", f"a transition of the '{bucket}' bucket becomes a candidate only when its own guard passes" if ok else
+                 f"'{norm(x)}' ({bucket} bucket) is not under a positive '_passes({item})': a transition whose guard is false (or raised) can be selected", x)
+            continue
+        if which != bucket:
+            continue
+        n += 1
+        need = {"after": [("==", *sorted(["event.type", f"{item}.event"]), True), ("truthy", "isinstance(event, AfterEvent)", "", True)],
+                "invoke": [("==", *sorted(["event.type", f"{item}.event"]), True), ("truthy", "isinstance(event, DoneEvent)", "", True)],
+                "ondone": [("==", *sorted(["event.type", f"{item}.event"]), True)],
+                "always": [("truthy", "is_transient_check", "", True)]}.get(bucket, [])
+        missing = [t for t in need if t not in atoms]
+        if bucket == "invoke":
+            src_ok = any(t[0] == "==" and t[3] is True and "event.src" in (t[1], t[2]) and any(z.endswith(".id") for z in (t[1], t[2])) for t in atoms)
+            if not src_ok:
+                missing.append(("==", "event.src", "<invocation>.id", True))
+        ok = not missing and not consts
+        c.ob(rid, ok, ce, f"event-identity:{bucket}", f"a '{bucket}' transition is a candidate only for its own event" if ok else
+             f"'{norm(x)}' ({bucket} bucket) lacks the positive test(s) {missing} (guards seen: {atoms[-4:]}): the handler of one timer / service / "
+             f"completion is selected for the event of another", x)
+    c.expect(rid, f"appends of the '{which}' bucket", n, 1, ce)
